@@ -20,7 +20,7 @@ from collections import deque
 from graphlib import TopologicalSorter
 from typing import Any, Dict, List
 
-MSG_DEFAULT = {"kind": "valid", "task": "ta0", "body": "wait", "outcome": "ret", "timeout": 0, "savefail": False, "ackfail": False, "tid": 0, "slowcancel": False, "slow": False}
+MSG_DEFAULT = {"kind": "valid", "task": "ta0", "body": "wait", "outcome": "ret", "timeout": 0, "savefail": False, "ackfail": False, "tid": 0, "slowcancel": False, "slow": False, "late": False}
 MW_DEFAULT = {"pre": "", "onerr": "", "post": "", "postsave": "", "replace": False}
 DEP_DEFAULT = {"style": "gen", "cached": True, "parent": 0, "suspend": False, "fail": False}
 
